@@ -159,6 +159,9 @@ func gaterCheck(c *rt.Ctx, g *ssa.Function) {
 		if k, ok := v.(*ssa.Const); ok && k.Value != nil && k.Value.ExactString() == "false" {
 			continue
 		}
+		if gtFalseOnEdge(v, rc.At, rc.Into) {
+			continue // `ok := cond; if ok { ok = window test }; return ok`: on the skipping edge the verdict is the false cond
+		}
 		nTrue++
 		if w.admitEdge(g, rc.At, rc.Into, gtEnv{}) {
 			continue
@@ -195,6 +198,43 @@ func gaterCheck(c *rt.Ctx, g *ssa.Function) {
 	default:
 		c.Good(k, g.Pos(), "every admitting return is (guarded by) slot-derived <= bound")
 	}
+}
+
+// gtFalseOnEdge: the boolean v is known to be false when the edge at→into is taken, because the branch that
+// ends block at tests v itself (or its negation) and the edge is the one taken when v is false. Also when at is
+// confined to such an edge.
+func gtFalseOnEdge(v ssa.Value, at, into *ssa.BasicBlock) bool {
+	if at == nil {
+		return false
+	}
+	falseEdge := func(b *ssa.BasicBlock) *ssa.BasicBlock {
+		if len(b.Instrs) == 0 || len(b.Succs) != 2 || b.Succs[0] == b.Succs[1] {
+			return nil
+		}
+		iff, ok := b.Instrs[len(b.Instrs)-1].(*ssa.If)
+		if !ok {
+			return nil
+		}
+		cond := an.Resolve(iff.Cond)
+		if cond == v {
+			return b.Succs[1]
+		}
+		if n, ok := cond.(*ssa.UnOp); ok && n.Op == token.NOT && an.Resolve(n.X) == v {
+			return b.Succs[0]
+		}
+		return nil
+	}
+	if into != nil {
+		if fe := falseEdge(at); fe != nil && fe == into {
+			return true
+		}
+	}
+	for _, b := range at.Parent().Blocks {
+		if fe := falseEdge(b); fe != nil && an.EdgeConfines(b, fe, at) {
+			return true
+		}
+	}
+	return false
 }
 
 func isCompare(op token.Token) bool {
